@@ -28,7 +28,7 @@ def extracted_orderings():
 
 class Profile:
     """A family of concurrent programs: how many threads, which macro-ops, which scheduler settings."""
-    def __init__(self, name, macros, threads=(2, 3), ops=(1, 3), caps=("0", "1", "2", "u"), classes=("w", "l", "b", "z"),
+    def __init__(self, name, macros, threads=(2, 3), ops=(1, 3), caps=("0", "1", "2", "u"), classes=("w", "l", "b", "z", "p", "q"),
                  pars=("1", "4"), strategies=("random", "pct:2", "pct:3", "uniform"), n=100, extra=""):
         self.name, self.macros, self.threads, self.ops = name, macros, threads, ops
         self.caps, self.classes, self.pars, self.strategies, self.n, self.extra = caps, classes, pars, strategies, n, extra
